@@ -455,6 +455,11 @@ def main():
             outputs['Kernels.v'] = translate_stmt.generate()
         except translate_stmt.Unsupported as e:
             raise Unsupported(f'statement back end: {e}')
+        import translate_poly
+        try:
+            outputs['Poly.v'] = translate_poly.generate()
+        except translate_poly.Unsupported as e:
+            raise Unsupported(f'polynomial back end: {e}')
     except (Unsupported, KeyError, IndexError, AttributeError, AssertionError, SyntaxError) as e:
         print(f'TRANSLATOR-FAIL-CLOSED {type(e).__name__}: {e}')
         return 1
